@@ -47,6 +47,17 @@ func rootArg(dir string, files Sx) string {
 	return dir
 }
 
+// two trees in five are analysed from INSIDE the project, the way the README runs the commands (`cd project; coca ... -p .`,
+// -p defaults to "."): the walk then yields paths without any directory in front of src/...
+func enterRoot(dir string, files Sx) (string, func()) {
+	if r := len(files.Items()) % 5; r == 1 || r == 3 {
+		if wd, err := os.Getwd(); err == nil && os.Chdir(dir) == nil {
+			return ".", func() { os.Chdir(wd) }
+		}
+	}
+	return rootArg(dir, files), func() {}
+}
+
 func relativise(nodes []core_domain.CodeDataStruct, dir string) []core_domain.CodeDataStruct {
 	out := make([]core_domain.CodeDataStruct, len(nodes))
 	for i, n := range nodes {
@@ -64,10 +75,32 @@ func init() {
 	register("java.passes", func(in Sx) Sx {
 		dir := writeTree(in)
 		defer os.RemoveAll(dir)
+		if len(in.Items())%3 == 2 {
+			// every third project is analysed in a process that analysed ANOTHER tree before: classes of the same simple
+			// names in a package of their own (an earlier module of a multi-module build); nothing of it may remain
+			decoy := []Sx{}
+			for _, f := range in.Items() {
+				name := strings.TrimSuffix(filepath.Base(f.Nth(0).Str()), ".java")
+				if name == "" || name == filepath.Base(f.Nth(0).Str()) || strings.ContainsAny(name, ".- ") {
+					continue
+				}
+				decoy = append(decoy, L(A("zz/decoy/"+name+".java"), A("package zz.decoy;\npublic class "+name+" {\n  public void m() { }\n}\n")))
+			}
+			if len(decoy) > 0 {
+				ddir := writeTree(L(decoy...))
+				dIdentApp := javaapp.NewJavaIdentifierApp()
+				dIdents := dIdentApp.AnalysisPath(ddir)
+				dFullApp := javaapp.NewJavaFullApp()
+				_ = dFullApp.AnalysisPath(ddir, dIdents)
+				os.RemoveAll(ddir)
+			}
+		}
+		root, leave := enterRoot(dir, in)
+		defer leave()
 		identApp := javaapp.NewJavaIdentifierApp()
-		idents := identApp.AnalysisPath(rootArg(dir, in))
+		idents := identApp.AnalysisPath(root)
 		fullApp := javaapp.NewJavaFullApp()
-		full := fullApp.AnalysisPath(rootArg(dir, in), idents)
+		full := fullApp.AnalysisPath(root, idents)
 		return L(sxOfModel(relativise(idents, dir)), sxOfModel(relativise(full, dir)))
 	})
 }
@@ -249,7 +282,8 @@ func init() {
 	register("java.tbs", func(in Sx) Sx {
 		dir := writeTree(in)
 		defer os.RemoveAll(dir)
-		files := cocafile.GetJavaTestFiles(rootArg(dir, in))
+		root, leave := enterRoot(dir, in)
+		files := cocafile.GetJavaTestFiles(root)
 		identApp := javaapp.NewJavaIdentifierApp()
 		identifiers := identApp.AnalysisFiles(files)
 		identMap := core_domain.BuildIdentifierMap(identifiers)
@@ -259,6 +293,7 @@ func init() {
 		for _, r := range tbs.NewTbsApp().AnalysisPath(classNodes, identMap) {
 			out = append(out, L(A(r.Type), A(strings.TrimPrefix(strings.TrimPrefix(r.FileName, dir), "/")), N(r.Line)))
 		}
+		leave()
 		// every other tree is observed through `coca tbs -p DIR`: coca_reporter/tbs.json
 		if cliEnabled() && len(in.Items())%2 == 1 {
 			sess := newCliSess()
